@@ -1,7 +1,10 @@
 //! C11 driver: replays TLC-generated schedules (and seeded random ones) on the real caches.
 //!
-//! usage: drv_conc --target mem|memc|disk|diskc|dyn --programs <file> --out <file>
-//!        drv_conc --target mem|memc|disk|diskc|dyn --random N --tasks T --ops K --keys M --out <file>
+//! usage: drv_conc --target mem|memc|disk|diskc|ml|proto|protod|dyn --programs <file> --out <file>
+//!        drv_conc --target mem|memc|disk|diskc|ml|proto|protod|dyn --random N --tasks T --ops K --keys M --out <file>
+//! Target ml = MultiLayerCacheImpl (memory layer over a disk layer; initial kind "l2" = a live value that sits in
+//! the disk layer only); proto / protod = ProtocolCache (the sync facade of cascette-protocol over a memory / a disk
+//! cache; odd-numbered tasks call it from inside a tokio runtime, which takes the facade's other bridge path).
 //! Targets memc / diskc = MemoryCache::new_with_cleanup / DiskCache::new_with_background_tasks: the background cleanup task lives on a private tokio
 //! runtime whose clock is paused; the operation "sweep" advances that clock by one cleanup interval and
 //! drives the runtime on the calling thread, so one "sweep" = one tick of the cleanup task, executed by
@@ -317,6 +320,76 @@ fn memc_exec() -> Exec {
     ticking_exec(move || MemoryCache::<RibbitKey>::new_with_cleanup(cfg).expect("memory cache with cleanup"))
 }
 
+/// MultiLayerCacheImpl: memory layer 0 over disk layer 1. "put_l2" (sequential prefix only) stores into layer 1.
+fn ml_exec(dir: &std::path::Path) -> Exec {
+    use cascette_cache::config::MultiLayerCacheConfig;
+    use cascette_cache::multi_layer::MultiLayerCacheImpl;
+    use cascette_cache::traits::MultiLayerCache;
+    let cfg = MultiLayerCacheConfig::new()
+        .add_memory_layer(MemoryCacheConfig::new().with_max_entries(100_000).with_default_ttl(Duration::from_secs(3600)))
+        .add_disk_layer(DiskCacheConfig::new(dir.to_path_buf()).with_subdirectories(false, 0).with_default_ttl(Duration::from_secs(3600)));
+    // the constructors spawn background tasks: they need a runtime context (its clock is paused and it is never
+    // driven again, so those tasks never run)
+    let rt = tokio::runtime::Builder::new_current_thread().enable_time().start_paused(true).build().expect("runtime");
+    let cache = {
+        let _g = rt.enter();
+        Arc::new(MultiLayerCacheImpl::<RibbitKey>::new(cfg).expect("MultiLayerCacheImpl::new"))
+    };
+    let rt = Mutex::new(rt);
+    Arc::new(move |op, k, id| {
+        let _keep = &rt;
+        if op == "put_l2" {
+            match futures::executor::block_on(cache.put_to_layer(key_of(k), value_of(id), 1)) {
+                Ok(()) => json!("ok"),
+                Err(_) => json!("err"),
+            }
+        } else {
+            futures::executor::block_on(exec(&*cache, op, k, id))
+        }
+    })
+}
+
+/// ProtocolCache (sync facade). `in_runtime` = the call is made from inside a tokio runtime.
+fn proto_exec(dir: Option<&std::path::Path>) -> Exec {
+    let cfg = cascette_protocol::CacheConfig { cache_dir: dir.map(std::path::Path::to_path_buf), ..Default::default() };
+    let cache = Arc::new(cascette_protocol::cache::ProtocolCache::new(&cfg).expect("protocol cache"));
+    Arc::new(move |op, k, id| {
+        let key = format!("ribbit:k{k}");
+        let call = || -> Value {
+            match op {
+                "get" => match cache.get(&key) {
+                    Ok(v) => json!(decode(&v.map(Bytes::from))),
+                    Err(_) => json!("err"),
+                },
+                "put" => match cache.store_with_ttl(&key, &value_of(id), Duration::from_secs(3600)) {
+                    Ok(()) => json!("ok"),
+                    Err(_) => json!("err"),
+                },
+                "put_exp" => match cache.store_with_ttl(&key, &value_of(id), Duration::ZERO) {
+                    Ok(()) => json!("ok"),
+                    Err(_) => json!("err"),
+                },
+                "clear" => match cache.clear() {
+                    Ok(()) => json!("ok"),
+                    Err(_) => json!("err"),
+                },
+                "size" => match cache.len() {
+                    Ok(n) => json!(if n > 1_000_000 { -1 } else { n as i64 }),
+                    Err(_) => json!("err"),
+                },
+                "mem" => match cache.stats() {
+                    Ok(s) => json!(if s.memory_usage > 1_000_000_000 { -1 } else { s.memory_usage as i64 }),
+                    Err(_) => json!("err"),
+                },
+                other => panic!("driver: op {other} not supported by the proto targets"),
+            }
+        };
+        // odd task numbers call from inside a runtime (the facade then hands the work to a helper thread)
+        let in_runtime = TASK.with(Cell::get).is_some_and(|(_, t)| t % 2 == 1);
+        if in_runtime { tok(async { call() }) } else { call() }
+    })
+}
+
 fn run_one(cache: Exec, prog: &Value, ctl: &Arc<Ctl>, target: &str, probes: &[&str]) -> Value {
     let nkeys = prog["init"].as_array().unwrap().len() as u64;
     let progs: Vec<Vec<Value>> = prog["progs"].as_array().unwrap().iter().map(|p| p.as_array().unwrap().clone()).collect();
@@ -330,12 +403,14 @@ fn run_one(cache: Exec, prog: &Value, ctl: &Arc<Ctl>, target: &str, probes: &[&s
             "none" => continue,
             "live" => "put",
             "exp" => "put_exp",
+            "l2" => "put_l2",
             other => panic!("driver: bad init kind {other}"),
         };
         let inv = stamp();
         let res = cache(opn, k, k);
         let ret = stamp();
-        ops.push(op_record(0, ki + 1, opn, k, k, inv, ret, res));
+        // for the monitor a value in the lower layer is simply the key's value
+        ops.push(op_record(0, ki + 1, if opn == "put_l2" { "put" } else { opn }, k, k, inv, ret, res));
     }
     // parallel part
     let generation = ctl.reset(ntasks);
@@ -483,6 +558,10 @@ fn run_one(cache: Exec, prog: &Value, ctl: &Arc<Ctl>, target: &str, probes: &[&s
 fn random_program(rng: &mut Rng, tasks: u64, nops: u64, keys: u64, target: &str) -> Value {
     let (kinds, names): (&[&str], &[&str]) = if target == "dyn" {
         (&["none", "live"], &["get", "contains", "put", "remove", "get", "put"])
+    } else if target == "ml" {
+        (&["none", "live", "exp", "l2", "l2"], &["get", "contains", "put", "put_exp", "remove", "clear", "get", "put"])
+    } else if target == "proto" || target == "protod" {
+        (&["none", "live", "exp"], &["get", "put", "put_exp", "clear", "get", "put"])
     } else if target == "diskc" {
         (&["none", "live", "exp"], &["get", "put", "put_exp", "put_exp", "remove", "clear", "sweep", "sweep", "size"])
     } else if target == "memc" {
@@ -571,6 +650,20 @@ fn main() {
             let n = counter.fetch_add(1, Ordering::Relaxed);
             let dir = base.join(format!("s{n}"));
             let v = run_one(diskc_exec(&dir), prog, &ctl, "diskc", &["size", "mem"]);
+            let _ = std::fs::remove_dir_all(&dir);
+            v
+        } else if target2 == "ml" {
+            let n = counter.fetch_add(1, Ordering::Relaxed);
+            let dir = base.join(format!("m{n}"));
+            let v = run_one(ml_exec(&dir), prog, &ctl, "ml", &["size", "mem"]);
+            let _ = std::fs::remove_dir_all(&dir);
+            v
+        } else if target2 == "proto" {
+            run_one(proto_exec(None), prog, &ctl, "proto", &["size", "mem"])
+        } else if target2 == "protod" {
+            let n = counter.fetch_add(1, Ordering::Relaxed);
+            let dir = base.join(format!("p{n}"));
+            let v = run_one(proto_exec(Some(&dir)), prog, &ctl, "protod", &["size", "mem"]);
             let _ = std::fs::remove_dir_all(&dir);
             v
         } else if target2 == "memc" {
